@@ -6,19 +6,17 @@ Import ListNotations.
 (* every match the matcher reports, at any fuel, from any environment, is justified by an alignment *)
 Definition C03_sound_stmt : Prop :=
   forall fuel s src g c e a',
-    pwf g = true ->
     run fuel s src (RNode g c) (AEnv e) = (ROne MatchedBoth, a') ->
     Aligned s src g c.
 
 Definition C03_sound_pattern_stmt : Prop :=
   forall src p c e e',
-    pwf (p_node p) = true ->
     pattern_match src p c e = Matched e' ->
     Aligned (p_strict p) src (p_node p) c.
 
 (* the length reported for the matched prefix never exceeds the node and never splits a child *)
 Definition C03_len_stmt : Prop :=
   forall src p c n,
-    pwf (p_node p) = true -> wfb c = true ->
+    wfb c = true ->
     match_len src p c = LenSome n ->
     (0 < n <= tend c - tstart c)%N /\ ends_at_descendant c (tstart c + n).
